@@ -1156,7 +1156,10 @@ def run(ctx):
                        "small pools (number of tasks 400-1000, buffers 60-300, queues 300-400: the task and buffer pools wrap around within a step); data-race runs: mask (subgrids inside / "
                        "outside / straddling the sphere), live output, trackers, radiation+mask on 8 (4) threads with 256-512 subgrids, each repeated 3x (thorough 6x), hit rate in "
                        "whole_runs.*.failing_repetitions_of_repeated_runs; recycled task slots: radiation + diffuse field + subgrid copies + time-dependent sources (DiscPatch; thorough also "
-                       "UniformRandom, more sources, 3 iterations) over >= 8 radiation steps. Quick: all runs on the normal binary + the stress/race/moving-source subset (15 configurations) on the "
+                       "UniformRandom, more sources, 3 iterations) over >= 8 radiation steps; sizes that cross the implementation's internal blocks, read from the source of the tree under test "
+                       "(coverage.source_constants): single subgrids with a number of cells just below / exactly at / just above the snapshot writer's blocksize (thorough: above two blocks, "
+                       "two such subgrids) for the RHD (HydroDensitySubGrid) and the photoionization (DensitySubGrid, Gadget writer) overloads, photon numbers PHOTONBUFFER_SIZE-1 / = / +1 "
+                       "(thorough 2x, 2x+1), all also under ASan. Quick: all runs on the normal binary + the stress/race/moving-source subset (15 configurations) on the "
                        "ASan/UBSan binary; thorough: every run on both + LeakSanitizer on the RHD locals + 4 runs under ThreadSanitizer (clang/libomp/Archer build; known unlocked accesses listed in "
                        "TSAN_KNOWN). A run that does not end within 60 s (75 s under ASan) is a violation and stops further runs of its kind; distinct = (binary, configuration)")
     if info is None:
@@ -1269,7 +1272,8 @@ MANIFEST = dict(
          "reads elsewhere and the exit status of whole runs — these are only searched by whole runs of all modes with unequal cells per subgrid in every ordering and pools small enough to wrap "
          "around, repeated 8-thread runs of the components with per-subgrid state on hundreds of subgrids, and radiation with diffuse field, subgrid copies and time-dependent sources over many steps "
          "(exit status, expected outputs, no hang on the normal binary; an ASan/UBSan build of the whole binary on a stress subset in the quick tier and on every run in the thorough tier; "
-         "ThreadSanitizer on four runs in the thorough tier). A data race is only found when it shows in one of the repetitions or under ThreadSanitizer.",
+         "ThreadSanitizer on four runs in the thorough tier). Subgrid sizes and photon numbers cross the writer's blocksize and PHOTONBUFFER_SIZE (both read from the source at run time). "
+         "A data race is only found when it shows in one of the repetitions or under ThreadSanitizer.",
     note="Trusted: Lean kernel + 3 axioms; textual translator tools/gen_c12_lifecycle.py (fails closed); uniform-vector abstraction; same condition text = same option; null dereferences excluded only under "
          "stated parameter-file assumptions (theorem rhdSimulation_null_source_distribution_is_dereferenced shows one is necessary: genuine crash). Whole-run part is a search with replayable parameter files, not a proof; "
          "the sanitizer build lives in .build/asan (per repository path, incremental; `python3 tools/props/c12.py --prebuild` builds it ahead of time; valgrind memcheck on three runs is the fallback when it does not build); ThreadSanitizer needs clang++-14 + libomp + libarcher (g++/libgomp gives > 100 false reports per run) "
